@@ -1084,3 +1084,6 @@ mutant("M14v-stage-index-from-one-test-from-zero", ["C14"], "RECHUNK-PLAN-1", (O
 _RETARGET = "                    op = d[\"primitive_op\"]\n                    op.target_array = target\n                    op.fusable_with_successors = False\n"
 mutant("M11r-retarget-on-a-copy-never-stored", ["C11", "C02"], "STORE-NOFUSE-1", (OPS, "from dataclasses import dataclass\n", "from dataclasses import dataclass, replace\n"), (OPS, _RETARGET, "                    op = replace(d[\"primitive_op\"], target_array=target, fusable_with_successors=False)\n"))
 mutant("M11s-retarget-copy-without-mark", ["C11", "C02"], "STORE-NOFUSE-1", (OPS, "from dataclasses import dataclass\n", "from dataclasses import dataclass, replace\n"), (OPS, _RETARGET, "                    op = replace(d[\"primitive_op\"], target_array=target)\n                    d[\"primitive_op\"] = op\n"))
+RUTILS = "cubed/runtime/utils.py"
+mutant("M08b-batched-by-zip-grouper", ["C08", "C13", "C07"], "BATCH-COVER-1", (RUTILS, "    it = iter(iterable)\n    while batch := tuple(islice(it, n)):\n        yield batch\n", "    return zip(*[iter(iterable)] * n)\n"))
+benign("B08b-batched-explicit-loop", ["C08", "C13", "C07"], (RUTILS, "    it = iter(iterable)\n    while batch := tuple(islice(it, n)):\n        yield batch\n", "    it = iter(iterable)\n    while True:\n        batch = tuple(islice(it, n))\n        if not batch:\n            return\n        yield batch\n"))
